@@ -1,4 +1,5 @@
 ID = "C14"
+SPEC_RECHECK_RUNS = 12  # forward picks its first upstream at random: a failure may need several runs to show again
 COQ_PROPS = "Properties/C14.v"
 JUDGE = "Judge.C14"
 DRIVER = "c14"
